@@ -217,6 +217,9 @@ def idspace(F):
                 for x in walk(it):
                     if x.get("k") == "MethodCall" and x["method"] == "enumerate":
                         has_enum = True
+                    # `(0..).zip(coll.iter())`: the first tuple component is the position in coll as well
+                    if x.get("k") == "MethodCall" and x["method"] == "zip" and "ops::Range" in x.get("recv_ty", ""):
+                        has_enum = True
                     if x.get("k") == "Field" and x["name"] in COLLECTION_INDEX and coll is None:
                         coll = x["name"]
                     if x.get("k") == "MethodCall" and x["method"] in ("iter", "iter_mut") and coll is None:
@@ -269,6 +272,26 @@ def idspace(F):
                 r.analysed.append(fn["path"])
             if bad:
                 r.violate(key, F.loc(fn, n), "%s is built from the %s: the two index spaces differ as soon as the module has imports of several kinds" % (A.split("::")[-1], bad))
+        # comparisons of a collection position with the payload of an ID of another space
+        for n in walk(fn["body"]):
+            if n.get("k") == "Binary" and n["op"] in ("==", "!=", "<", "<=", ">", ">="):
+                sides = [n["a"], n["b"]]
+                for i in (0, 1):
+                    idx = peel(sides[i])
+                    if idx.get("k") == "Path" and idx.get("res", {}).get("hid") in enum_idx:
+                        coll = enum_idx[idx["res"]["hid"]]
+                        want = COLLECTION_INDEX[coll]
+                        for x in walk(sides[1 - i]):
+                            if x.get("k") == "Unary" and x.get("op") == "*" and x.get("callee"):
+                                B = _base(x["a"].get("ty", ""))
+                                if B in ids and B.split("::")[-1] != want:
+                                    snip = snippet(_repo(), fn["file"], n["sp"])
+                                    key = "%s | %s" % (fn["path"], snip)
+                                    if key in reviewed:
+                                        r.ob(True)
+                                        continue
+                                    r.ob(False, {"comparison": snip, "fn": fn["path"]})
+                                    r.violate(key, F.loc(fn, n), "a position in `%s` (a %s-indexed collection) is compared with the payload of a %s: the two index spaces differ as soon as the module has imports of several kinds" % (coll, want, B.split("::")[-1]))
     r.count("id_constructions", n_ctor)
     return r
 
@@ -643,7 +666,7 @@ def _leaf_param(e, param_hids):
 
 def swap_flows(F):
     r = RuleResult("R-SWAP",
-                   "name-aligned flows: when a function passes one of several same-typed parameters into a named slot (a struct field or a callee parameter), the slot is not literally named after a *different* same-typed parameter (params↔results, mutable↔shared, module↔name, initial↔maximum swaps are invisible to the type checker)")
+                   "name-aligned flows: within one struct literal or call, same-typed parameters are not crossed (P goes into the slot named Q while Q goes into the slot named P) and no parameter is duplicated into the slot named after an absent same-typed sibling (params↔results, mutable↔shared, module↔name swaps are invisible to the type checker)")
     n_flows = 0
     n_fns = 0
     for fn in F.fns:
@@ -663,39 +686,43 @@ def swap_flows(F):
         n_fns += 1
         touched = False
 
-        def judge(slot, val, node, what):
+        def judge_group(slots, node, what):
+            """slots: list of (slot_name, value_expr) of one literal / one call"""
             nonlocal n_flows, touched
-            h = _leaf_param(val, params)
-            if h is None:
-                return
-            pname, pty = params[h]
-            sibs = [x for x in by_ty[pty] if x != pname]
-            if not sibs:
-                return
-            n_flows += 1
-            touched = True
-            ok = not (slot in sibs and slot != pname)
-            r.ob(ok, {"fn": fn["path"], "param": pname, "flows_to": "%s `%s`" % (what, slot)})
-            if not ok:
-                r.violate("%s | %s→%s" % (fn["path"], pname, slot), F.loc(fn, node),
-                          "parameter `%s` is passed into %s `%s`, which is the name of another parameter of the same type (%s): looks like a swap" % (pname, what, slot, pty))
+            flow = {}   # slot -> param name
+            for slot, val in slots:
+                h = _leaf_param(val, params)
+                if h is not None:
+                    flow[slot] = params[h][0]
+            for slot, pname in sorted(flow.items()):
+                pty = [ty for (nm, ty) in params.values() if nm == pname][0]
+                sibs = [x for x in by_ty[pty] if x != pname]
+                if not sibs:
+                    continue
+                n_flows += 1
+                touched = True
+                bad = None
+                if slot in sibs:
+                    # P sits in the slot named after sibling Q
+                    if flow.get(pname) == slot:
+                        bad = "crossed with `%s`" % slot
+                    elif slot not in flow.values() and list(flow.values()).count(pname) > 1:
+                        bad = "`%s` is used twice and `%s` not at all" % (pname, slot)
+                r.ob(bad is None, {"fn": fn["path"], "param": pname, "flows_to": "%s `%s`" % (what, slot)})
+                if bad:
+                    r.violate("%s | %s→%s" % (fn["path"], pname, slot), F.loc(fn, node),
+                              "parameter `%s` is passed into %s `%s`, the name of another parameter of the same type (%s): %s" % (pname, what, slot, pty, bad))
 
         for n in walk(fn["body"]):
-            if n.get("k") == "Struct" and "fields" in n and n.get("adt") is not None and "base" not in n or (n.get("k") == "Struct" and "fields" in n and "rest" not in n and "pats" not in n):
-                if "rest" in n:
-                    continue  # a pattern
-                for fname, val in n["fields"]:
-                    if isinstance(val, dict) and val.get("k") not in (None,) and "k" in val and val["k"] not in ("Binding", "Wild"):
-                        judge(fname, val, n, "field")
+            if n.get("k") == "Struct" and "fields" in n and "rest" not in n and "pats" not in n:
+                judge_group([(fname, val) for fname, val in n["fields"] if isinstance(val, dict) and val.get("k") not in (None, "Binding", "Wild")], n, "field")
             if n.get("k") in ("Call", "MethodCall"):
                 callee = n.get("inst") or n.get("callee")
                 t = F.by_path.get(callee or "")
                 if t and len(t) == 1 and t[0].get("params"):
                     pn = [pp["pat"].get("name") for pp in t[0]["params"]]
                     args = ([n["recv"]] if n["k"] == "MethodCall" else []) + list(n["args"])
-                    for slot, a in zip(pn, args):
-                        if slot and slot != "self":
-                            judge(slot, a, n, "parameter of %s" % t[0]["name"])
+                    judge_group([(slot, a) for slot, a in zip(pn, args) if slot and slot != "self"], n, "parameter of %s" % t[0]["name"])
         if touched:
             r.analysed.append(fn["path"])
     r.count("functions_with_same_typed_params", n_fns)
